@@ -160,8 +160,8 @@ Proof.
   rewrite nval_app. pose proof (nval_dremove_found k d x E). unfold is_val in *. cbn [se]. lia.
 Qed.
 
-Lemma nval_dset_in_place k l d x :
-  dfind k d = Some x -> is_val x = true -> nval (dset_in k (EPlace l) d) + 1 <= nval d.
+Lemma nval_dset_in_place k l b d x :
+  dfind k d = Some x -> is_val x = true -> nval (dset_in k (EPlace l b) d) + 1 <= nval d.
 Proof.
   induction d as [|y r IH]; cbn [dfind dset_in]; [discriminate|].
   destruct (Nat.eqb_spec (sk y) k) as [E|E].
@@ -313,4 +313,102 @@ Qed.
 Lemma dget_tl_cases k x r : NoDup (keys (x :: r)) -> dget k r = dget k (x :: r) \/ dget k r = None.
 Proof.
   intros Hn. destruct (Nat.eq_dec (sk x) k) as [<-|N]; [right; now apply dget_tl_nodup|left; now apply dget_tl].
+Qed.
+
+
+(* ---- counted placeholders, the ghost mark ---- *)
+Definition is_cnt (x : slot) : bool := match se x with EPlace _ true => true | _ => false end.
+Definition ncnt (d : list slot) : nat := length (filter is_cnt d).
+
+Lemma ncnt_cons x r : ncnt (x :: r) = (if is_cnt x then 1 else 0) + ncnt r.
+Proof. unfold ncnt. cbn. destruct (is_cnt x); reflexivity. Qed.
+
+Lemma ncnt_app d x : ncnt (d ++ [x]) = ncnt d + (if is_cnt x then 1 else 0).
+Proof. unfold ncnt. rewrite filter_app, app_length. cbn. destruct (is_cnt x); reflexivity. Qed.
+
+Lemma ncnt_dremove_found k d x :
+  dfind k d = Some x -> ncnt (dremove k d) + (if is_cnt x then 1 else 0) <= ncnt d.
+Proof.
+  induction d as [|y r IH]; cbn [dfind dremove filter]; [discriminate|]. fold (dremove k r).
+  destruct (Nat.eqb_spec (sk y) k) as [E|E]; cbn [negb].
+  - intros [= <-]. rewrite ncnt_cons.
+    assert (H : ncnt (dremove k r) <= ncnt r).
+    { clear. induction r as [|z r IH]; cbn [dremove filter]; [lia|]. fold (dremove k r).
+      destruct (negb (Nat.eqb (sk z) k)); rewrite ?ncnt_cons; destruct (is_cnt z); lia. }
+    destruct (is_cnt y); lia.
+  - intros H. specialize (IH H). rewrite !ncnt_cons. destruct (is_cnt y); lia.
+Qed.
+
+Lemma ncnt_dmove k st d : ncnt (dmove k st d) <= ncnt d.
+Proof.
+  unfold dmove. destruct (dfind k d) as [x|] eqn:E; [|lia].
+  rewrite ncnt_app. pose proof (ncnt_dremove_found k d x E). unfold is_cnt in *. cbn [se]. lia.
+Qed.
+
+(* replacing the entry of k: counts move by the difference between the old and the new entry *)
+Lemma counts_dset_in k e d x :
+  dfind k d = Some x ->
+  nval (dset_in k e d) + (if is_val x then 1 else 0) = nval d + (if is_val (mkslot k e 0) then 1 else 0) /\
+  ncnt (dset_in k e d) + (if is_cnt x then 1 else 0) = ncnt d + (if is_cnt (mkslot k e 0) then 1 else 0).
+Proof.
+  induction d as [|y r IH]; cbn [dfind dset_in]; [discriminate|].
+  destruct (Nat.eqb_spec (sk y) k) as [E|E].
+  - intros [= <-]. rewrite !nval_cons, !ncnt_cons. unfold is_val, is_cnt. cbn [se]. split; lia.
+  - intros H. destruct (IH H) as [H1 H2]. rewrite !nval_cons, !ncnt_cons. split; lia.
+Qed.
+
+Lemma dset_in_absent k e d : dfind k d = None -> dset_in k e d = d.
+Proof.
+  induction d as [|y r IH]; cbn; [reflexivity|]. destruct (Nat.eqb (sk y) k); [discriminate|].
+  intros H. now rewrite IH.
+Qed.
+
+Lemma keys_dmark k d : keys (dmark k d) = keys d.
+Proof.
+  unfold dmark. destruct (dfind k d) as [x|]; [|reflexivity]. destruct (se x); [apply keys_dset_in|reflexivity].
+Qed.
+
+Lemma dget_dmark k' k d :
+  dget k' (dmark k d) =
+  if Nat.eqb k' k then match dget k d with Some (EPlace l _) => Some (EPlace l true) | o => o end else dget k' d.
+Proof.
+  unfold dmark. destruct (dfind k d) as [x|] eqn:E.
+  - rewrite (dget_find k d x E). destruct (se x) as [l b|v e] eqn:Hse.
+    + rewrite dget_dset_in, (dget_find k d x E). reflexivity.
+    + destruct (Nat.eqb_spec k' k) as [->|N]; [rewrite (dget_find k d x E), Hse|]; reflexivity.
+  - rewrite (dget_none_find k d E). destruct (Nat.eqb_spec k' k) as [->|N]; [apply dget_none_find, E|reflexivity].
+Qed.
+
+Lemma in_dmark x k d :
+  In x (dmark k d) ->
+  In x d \/ (exists y z l b, In y d /\ In z d /\ sk z = k /\ se z = EPlace l b /\
+                            x = mkslot k (EPlace l true) (ss y)).
+Proof.
+  unfold dmark. destruct (dfind k d) as [z|] eqn:E; [|tauto]. destruct (se z) as [l b|v e] eqn:Hse; [|tauto].
+  intros H. apply in_dset_in in H. destruct H as [H|(y & Hy & Hk & ->)]; [left; exact H|].
+  right. destruct (dfind_some k d z E) as [Hz1 Hz2]. exists y, z, l, b. auto 6.
+Qed.
+
+Lemma sorted_dmark k d : StronglySorted stamp_lt d -> StronglySorted stamp_lt (dmark k d).
+Proof.
+  intros H. unfold dmark. destruct (dfind k d) as [x|]; [|exact H]. destruct (se x); [now apply sorted_dset_in|exact H].
+Qed.
+
+Lemma nval_dmark k d : nval (dmark k d) = nval d.
+Proof.
+  unfold dmark. destruct (dfind k d) as [x|] eqn:E; [|reflexivity]. destruct (se x) as [l b|v e] eqn:Hse; [|reflexivity].
+  destruct (counts_dset_in k (EPlace l true) d x E) as [H _]. unfold is_val in H. rewrite Hse in H. cbn in H. lia.
+Qed.
+
+Lemma ncnt_dmark_le k d : ncnt (dmark k d) <= ncnt d + 1.
+Proof.
+  unfold dmark. destruct (dfind k d) as [x|] eqn:E; [|lia]. destruct (se x) as [l b|v e] eqn:Hse; [|lia].
+  destruct (counts_dset_in k (EPlace l true) d x E) as [_ H]. unfold is_cnt in H. cbn in H. destruct (is_cnt x); lia.
+Qed.
+
+Lemma ncnt_dmark_uncounted k d l :
+  dget k d = Some (EPlace l false) -> ncnt (dmark k d) = ncnt d + 1.
+Proof.
+  intros Hg. destruct (dget_some _ _ _ Hg) as (x & E & Hse & _). unfold dmark. rewrite E, Hse.
+  destruct (counts_dset_in k (EPlace l true) d x E) as [_ H]. unfold is_cnt in H. rewrite Hse in H. cbn in H. lia.
 Qed.
